@@ -34,6 +34,14 @@ func init() {
 			// the index protocol as a create
 			ruleConstraintRegistered(c, "C03.CONSTRAINTREG")
 			ruleCreateIsCreate(c, "C03.CREATECTX")
+			ruleIndexTxState(c, "C03.TXSTATE")
+			// a veto raised by an index (duplicate, missing value) reaches the caller of Create/Update/Delete: the
+			// holder the indexes record into is consulted after the last index step
+			ruleHolder(c, "C03.ERRREACH", c.prodFuncs("boltz"), map[string]bool{
+				"(*boltz.BaseStore[E]).Create": true, "(*boltz.BaseStore[E]).Update": true, "(*boltz.BaseStore[E]).DeleteById": true,
+			})
+			c.Floor("C03.ERRREACH", 2)
+			ruleIndexBucketError(c, "C03.INDEXBUCKETERR")
 			ruleOldFirst(c, "C03.OLDFIRST", []string{"uniqueIndex"})
 			ruleUnchangedShortcut(c, "C03.UNCHANGED", []string{"uniqueIndex"})
 			rulePathFresh(c, "C03.PATHFRESH")
@@ -83,6 +91,7 @@ func init() {
 			// ... and land on the first remaining key >= the deleted one (a forward Seek does not move again)
 			ruleCursorDirection(c, c.cursorTypes(), "C04.CURSORSEEK", "C04.DIRPARAM")
 			ruleSymbolKeyRoles(c, "C04.SYMKEY")
+			ruleSymbolPathKey(c, "C04.SYMPATH")
 			ruleErrHolderShared(c, "C04.HOLDER")
 		},
 		Controls: []controlExpect{{"C04.INJECT", "zzControlBad_C04_INJECT", true}},
@@ -103,6 +112,7 @@ func init() {
 		Rules: func(c *Ctx) {
 			ruleLinkPair(c, "C05.PAIR")
 			ruleSymbolPathNotName(c, "C05.NAMEPATH")
+			ruleEntityBucketDescent(c, "C05.ENTITYBUCKET")
 			rulePutFresh(c, "C05.PUTFRESH")
 			ruleTaggedOnce(c, "C05.KEYTAG")
 			ruleNoStats(c, "C05.NOSTATS")
@@ -162,6 +172,8 @@ func init() {
 			ruleOldFirst(c, "C06.STALE", []string{"uniqueIndex", "fkIndex"})
 			ruleLinkCleanup(c, "C06.LINKS")
 			ruleFkDelete(c, "C06.CASCADE")
+			ruleSeekAbsolute(c, "C06.RESEEK")
+			ruleEntityBucketDescent(c, "C06.ENTITYBUCKET")
 			// the cascade re-seeks its cursor to the id it just deleted: the Seek must land on the next referrer, not pass it
 			ruleCursorDirection(c, c.cursorTypes(), "C06.CURSORSEEK", "C06.DIRPARAM")
 			ruleCleanupPlacement(c, "C06.LINKS")
@@ -2102,7 +2114,9 @@ func ruleNoMutateWhileIterating(c *Ctx, rule string, fns []*ssa.Function) {
 	cursorNext := p.ExtMethod(bboltPath, "Cursor", "Next")
 	cursorOf := p.ExtMethod(bboltPath, "Bucket", "Cursor")
 	var dels []*types.Func
-	for _, m := range []string{"Delete", "DeleteBucket"} {
+	// any write: an insert under an open cursor shifts the entries of a leaf that is already materialised in this
+	// transaction, so the cursor returns the row it just matched once more
+	for _, m := range []string{"Delete", "DeleteBucket", "Put", "CreateBucket", "CreateBucketIfNotExists"} {
 		dels = append(dels, p.ExtMethod(bboltPath, "Bucket", m))
 	}
 	sumD := cg.Summarize(func(in ssa.Instruction) bool { return isCallTo(in, dels...) })
@@ -2153,7 +2167,7 @@ func ruleNoMutateWhileIterating(c *Ctx, rule string, fns []*ssa.Function) {
 					}
 				}
 			}
-			c.Check(bad == "", rule, FnName(fn)+": loop over "+describeValue(bucket), p.Pos(fn.Pos()), "the bucket being iterated is not deleted from inside the loop", "deletes from the very bucket whose cursor drives the loop ("+bad+"): bolt then skips the following entry, so some links survive")
+			c.Check(bad == "", rule, FnName(fn)+": loop over "+describeValue(bucket), p.Pos(fn.Pos()), "the bucket being iterated is not written to from inside the loop", "writes to the very bucket whose cursor drives the loop ("+bad+"): bolt then skips or repeats an entry, so a link survives or a requested one is treated as stale")
 		}
 	}
 	c.Floor(rule, 3)
